@@ -373,10 +373,11 @@ def run(ctx):
     emodel += "NScope: !record\n  fields:\n    x: float64\n  computedFields:\n    twice: x * 2\n"
     emodel += ("Nx: !record\n  fields:\n    u8a: 'uint8[4]'\n    i8v: int8*\n    i16a: 'int16[2, 2]'\n    u16v: uint16*\n    u32v: uint32*\n    i32v: 'int32[2]'\n    f32v: float32*\n"
                "    u8s: uint8\n    i16s: int16\n    ia: int32\n    pa: NPair<int16>\n    pb: NPair<float64>\n    lu: [int32, string]\n    sl: NScope\n  computedFields:\n")
+    # (first, so that nothing has resolved NScope.twice before)
+    emodel += "    leak:\n      !switch lu:\n        int32 x: sl.twice\n        string s: sl.twice\n"
     for nme, src, _ in NX:
         if src is not None:
             emodel += "    %s: '%s'\n" % (nme, src)
-    emodel += "    leak:\n      !switch lu:\n        int32 x: sl.twice\n        string s: sl.twice\n"
     emodel += "PNx: !protocol\n  sequence:\n    items: !stream\n      items: Nx\n"
     root = os.path.join(ctx.workdir, "values")
     pkgdir = write_pkg(root, "".join(vmodel) + emodel)
